@@ -72,7 +72,7 @@ impl Property for C11 {
     }
 
     fn cases(tier: Tier) -> u64 {
-        tier.pick(12_000, 200_000)
+        tier.pick(12_000, 1_000_000)
     }
 
     fn exhaustive_spaces(_tier: Tier) -> Vec<String> {
